@@ -41,7 +41,12 @@ pub fn event_budget(n_chars: usize) -> usize {
 
 pub fn generate(run_seed: u64, corpus: &Corpus, sw: &Swarm, i: u64, exhaustive: u64) -> Case {
     if i < exhaustive {
-        // first the token strings, then the character strings
+        // first the context x follower cases, then the token strings, then the character strings
+        let ctx = crate::gen::count_context_cases();
+        if i < ctx {
+            return Case { prop: "C10".into(), gen: "X-context-follower".into(), text: crate::gen::nth_context_case(i), ..Case::default() };
+        }
+        let (i, exhaustive) = (i - ctx, exhaustive - ctx);
         let toks = exhaustive - crate::gen::count_strings(16, if exhaustive > 1_000_000 { 5 } else { 4 });
         return if i < toks {
             Case { prop: "C10".into(), gen: "X-tokens".into(), text: crate::gen::nth_token_string(i), ..Case::default() }
